@@ -1,5 +1,6 @@
 (* ConciliationProofs.v — proofs about model/Conciliation.v (C05). *)
-From Sup Require Import Conciliation.
+From Sup Require Import GenProc Conciliation.
+From Sup Require ProcStatus ProcStatusProofs.
 Open Scope Z_scope.
 
 (* ====================================================================== *)
@@ -870,3 +871,331 @@ Proof.
   destruct T as [_ [_ [_ T]]]. destruct (T eq_refl) as [T1 T2]. split; [exact T1|]. split; [exact T2|].
   split; intros E; rewrite E; reflexivity.
 Qed.
+
+(* ====================================================================== *)
+(* 9. model |= Spec_C05 (the boolean specification used as failing-input oracle) *)
+(* ====================================================================== *)
+Lemma In_aget_some : forall (V : Type) (k : Z) (v : V) l, In (k, v) l -> exists v', aget k l = Some v'.
+Proof.
+  intros V k v l. induction l as [|[k' w] r IH]; intros H; [destruct H|]. simpl.
+  destruct (Z.eqb k k') eqn:E; [eexists; reflexivity|]. destruct H as [H|H]; [|apply IH; exact H].
+  inversion H; subst. rewrite Z.eqb_refl in E. discriminate.
+Qed.
+
+Lemma NoDup_keys_filter : forall (V : Type) (f : Z * V -> bool) (l : alist V),
+  NoDup (akeys l) -> NoDup (map fst (filter f l)).
+Proof.
+  intros V f l. unfold akeys. induction l as [|x r IH]; intros H; simpl; [constructor|].
+  simpl in H. inversion H as [|? ? Hx Hr]; subst. destruct (f x); simpl; [|apply IH; exact Hr].
+  constructor; [|apply IH; exact Hr]. intros Hi. apply Hx. apply in_map_iff in Hi.
+  destruct Hi as [y [Ey Hy]]. apply filter_In in Hy. apply in_map_iff. exists y. tauto.
+Qed.
+
+Record Facts (c : cctx) : Prop := mkFacts {
+  f_hyp : Hyp c;
+  f_copies_nodup : forall v, In v (all_procs c) -> NoDup (copies v);
+  f_listed : forall v i, In v (all_procs c) -> (In i (pv_running v) <-> In i (copies v));
+  f_state : forall v, In v (all_procs c) -> p_conflicting v = true -> pv_is_running v = true
+}.
+
+Lemma H_c05_facts : forall c, H_c05 c = true -> Facts c.
+Proof.
+  intros c H. unfold H_c05, wf_ctx in H. rewrite !andb_true_iff in H. destruct H as [[H1 H2] H3].
+  rewrite forallb_forall in H2, H3.
+  assert (L : forall v i, In v (all_procs c) -> (In i (pv_running v) <-> In i (copies v))).
+  { intros v i Hv. specialize (H3 v Hv). rewrite !andb_true_iff in H3. destruct H3 as [[_ H3] _].
+    rewrite zset_eqb_iff in H3. apply H3. }
+  constructor; [constructor|..].
+  - apply nodupb_NoDup. exact H1.
+  - intros v Hv. apply nodupb_NoDup. apply H2. exact Hv.
+  - intros v i Hv Hi. apply (L v i Hv) in Hi. unfold copies in Hi. apply in_map_iff in Hi.
+    destruct Hi as [[k su] [Ek Hk]]. simpl in Ek. subst k. apply filter_In in Hk. destruct Hk as [Hk _].
+    exact (In_aget_some _ i su _ Hk).
+  - intros v Hv. specialize (H3 v Hv). rewrite !andb_true_iff in H3. destruct H3 as [[H3 _] _].
+    unfold copies. apply NoDup_keys_filter. apply nodupb_NoDup. exact H3.
+  - exact L.
+  - intros v Hv Hc. specialize (H3 v Hv). rewrite !andb_true_iff in H3. destruct H3 as [_ H3].
+    rewrite Hc in H3. simpl in H3. exact H3.
+Qed.
+
+Lemma spec_conflicts_eq : forall c, Facts c -> spec_conflicts c = conflicts c.
+Proof.
+  intros c F.
+  assert (P : forall v, In v (all_procs c) -> Nat.ltb 1 (length (copies v)) = p_conflicting v).
+  { intros v Hv. rewrite (NoDup_same_length (copies v) (pv_running v) (f_copies_nodup c F v Hv)
+                            (hyp_run c (f_hyp c F) v Hv)) by (intros x; symmetry; apply (f_listed c F v x Hv)).
+    unfold p_conflicting. destruct (pv_running v) as [|a [|b r]]; reflexivity. }
+  clear F. unfold spec_conflicts, conflicts. unfold all_procs in P. induction c as [|a r IH]; simpl; [reflexivity|].
+  rewrite IH by (intros v Hv; apply P; simpl; apply in_app_iff; right; exact Hv).
+  f_equal. destruct (av_managed a); [|reflexivity]. apply filter_ext_in. intros v Hv. apply P. simpl.
+  apply in_app_iff. left. exact Hv.
+Qed.
+
+Lemma passed_conflicts : forall c, NoDup (map pv_id (all_procs c)) ->
+  flat_map (fun p => match find_pv (all_procs c) p with Some v => [v] | None => [] end) (map pv_id (conflicts c))
+  = conflicts c.
+Proof.
+  intros c Hn. assert (S : forall v, In v (conflicts c) -> In v (all_procs c)) by apply conflicts_sub.
+  induction (conflicts c) as [|v r IH]; simpl; [reflexivity|].
+  rewrite (find_pv_In _ v Hn (S v (or_introl eq_refl))). simpl. f_equal. apply IH. intros w Hw. apply S. right. exact Hw.
+Qed.
+
+Lemma run_case_regular : forall c s, Hyp c ->
+  run_case c s (map pv_id (conflicts c)) =
+  let '(calls, e, pl) := outcome c s in
+  (conflicting c, map pv_id (conflicts c), calls, psort (pl_stops pl), zsort (pl_deferred pl), pl_direct pl, e).
+Proof.
+  intros c s H. unfold run_case, outcome. rewrite (passed_conflicts c (hyp_ids c H)).
+  destruct (conciliate s (conflicts c)) as [calls e]. reflexivity.
+Qed.
+
+Lemma NoDup_map_pair : forall (p : Z) (l : list Z), NoDup l -> NoDup (map (fun j => (p, j)) l).
+Proof.
+  intros p l H. induction l as [|x r IH]; simpl; [constructor|]. inversion H as [|? ? Hx Hr]; subst.
+  constructor; [|apply IH; exact Hr]. intros Hi. apply in_map_iff in Hi. destruct Hi as [j [Ej Hj]].
+  inversion Ej; subst. contradiction.
+Qed.
+
+Lemma NoDup_pairs : forall (S : pview -> list Z) confl, NoDup (map pv_id confl) ->
+  (forall v, In v confl -> NoDup (S v)) ->
+  NoDup (flat_map (fun v => map (fun j => (pv_id v, j)) (S v)) confl).
+Proof.
+  intros S confl. induction confl as [|v r IH]; intros Hn Hs; simpl; [constructor|].
+  simpl in Hn. inversion Hn as [|? ? Hv Hr]; subst. apply NoDup_app_iff. split; [|split].
+  - apply NoDup_map_pair. apply Hs. left. reflexivity.
+  - apply IH; [exact Hr|]. intros w Hw. apply Hs. right. exact Hw.
+  - intros [p i] H1 H2. apply in_map_iff in H1. destruct H1 as [j [Ej _]]. inversion Ej; subst.
+    apply In_pairs in H2. destruct H2 as [w [Hw [Ew _]]]. apply Hv. rewrite <- Ew. apply in_map. exact Hw.
+Qed.
+
+Lemma NoDup_stop_set : forall s v, NoDup (pv_running v) -> NoDup (stop_set s v).
+Proof.
+  intros s v H. unfold stop_set. destruct s.
+  - destruct (kept false v); [apply NoDup_stop_cmds; exact H|constructor].
+  - destruct (kept true v); [apply NoDup_stop_cmds; exact H|constructor].
+  - constructor.
+  - exact H.
+  - destruct (pv_is_running v); [exact H|constructor].
+  - exact H.
+Qed.
+
+Lemma stop_set_sub : forall s v i, In i (stop_set s v) -> In i (pv_running v).
+Proof.
+  intros s v i H. unfold stop_set in H. destruct s.
+  - destruct (kept false v) as [k|]; [|destruct H]. unfold stop_cmds in H.
+    destruct (zsort (zdiscard k (pv_running v))); [exact H|]. apply filter_In in H. tauto.
+  - destruct (kept true v) as [k|]; [|destruct H]. unfold stop_cmds in H.
+    destruct (zsort (zdiscard k (pv_running v))); [exact H|]. apply filter_In in H. tauto.
+  - destruct H.
+  - exact H.
+  - destruct (pv_is_running v); [exact H|destruct H].
+  - exact H.
+Qed.
+
+Lemma extremal_leb : forall a b, extremal false a b -> Z.leb a b = true.
+Proof. intros a b H. apply Z.leb_le. exact H. Qed.
+Lemma extremal_geb : forall a b, extremal true a b -> Z.geb a b = true.
+Proof. intros a b H. apply Z.geb_le. exact H. Qed.
+
+Lemma keeps_extremal_ok : forall dir (better : Z -> Z -> bool) v sp k,
+  (forall a b, extremal dir a b -> better a b = true) ->
+  (forall i, In i (pv_running v) <-> In i (copies v)) ->
+  In k (pv_running v) ->
+  (forall j, In j (pv_running v) -> extremal dir (uptime_of v k) (uptime_of v j)) ->
+  (forall i, In i sp <-> In i (pv_running v) /\ i <> k) ->
+  keeps_extremal better v sp = true.
+Proof.
+  intros dir better v sp k Hb Hl Hk Hext Hsp. unfold keeps_extremal. apply existsb_exists. exists k.
+  split; [apply Hl; exact Hk|]. apply andb_true_iff. split.
+  - apply forallb_forall. intros j Hj. apply Hb. apply Hext. apply Hl. exact Hj.
+  - apply zset_eqb_iff. intros i. rewrite Hsp, cz_In_zdiscard, <- Hl. tauto.
+Qed.
+
+(* model |= spec: on every process table that satisfies H_c05 and for each of the six strategies, what the model
+   does with context.conflicts() is accepted by the specification written from the property text *)
+Theorem model_refines_spec : forall c s, H_c05 c = true ->
+  spec_accepts c s (run_case c s (map pv_id (conflicts c))) = true.
+Proof.
+  intros c s HH. pose proof (H_c05_facts c HH) as F. pose proof (f_hyp c F) as H.
+  rewrite (run_case_regular c s H). pose proof (stops_exactly_strategy c s H) as T.
+  destruct (outcome c s) as [[calls e] pl] eqn:OE. rewrite (outcome_eq c s H) in OE.
+  injection OE as Ecalls Ee Epl. symmetry in Ecalls, Epl. subst e.
+  destruct T as [_ [Tin [Tper Tuser]]].
+  unfold spec_accepts. cbv zeta. rewrite (spec_conflicts_eq c F).
+  pose proof (NoDup_map_sub c (hyp_ids c H)) as Hnd.
+  assert (Hrun : forall v, In v (conflicts c) -> pv_is_running v = true).
+  { intros v Hv. apply (f_state c F v (conflicts_sub c v Hv)). apply In_conflicts in Hv.
+    destruct Hv as [a [_ [_ [_ Hc]]]]. exact Hc. }
+  assert (Estops : pl_stops pl = flat_map (fun v => map (fun i => (pv_id v, i)) (stop_set s v)) (conflicts c))
+    by (rewrite Epl; reflexivity).
+  assert (Edef : pl_deferred pl = match s with Restart => map pv_id (conflicts c) | _ => [] end).
+  { rewrite Epl. cbn [pl_deferred]. destruct s; try apply flat_map_nil.
+    apply (flat_map_singleton_if (conflicts c) Hrun). }
+  assert (Edir : pl_direct pl = []).
+  { rewrite Epl. cbn [pl_direct]. destruct s; try apply flat_map_nil.
+    apply (flat_map_singleton_if (conflicts c) Hrun). }
+  assert (Efail : flat_map (fun x => match x with CAddDefault p => [p] | _ => [] end) calls
+                  = match s with RunningFailure => map pv_id (conflicts c) | _ => [] end).
+  { change (flat_map call_failure calls = match s with RunningFailure => map pv_id (conflicts c) | _ => [] end).
+    pose proof (plan_of_spec (all_procs c) calls) as P.
+    assert (pl_failure pl = flat_map call_failure calls).
+    { rewrite Ecalls. rewrite Epl. cbn [pl_failure]. rewrite flat_map_app.
+      destruct (tail_nothing (all_procs c) s) as [_ [_ [_ T4]]]. rewrite T4, app_nil_r, flat_map_flat_map.
+      apply flat_map_ext_In. intros v _. symmetry. apply gcalls_failure. }
+    rewrite <- H0. rewrite Epl. cbn [pl_failure]. destruct s; try apply flat_map_nil. apply flat_map_singleton. }
+  rewrite Efail, Edef, Edir, app_nil_r.
+  assert (Hstarts : forall l, NoDup l -> nodupb (zsort l) = true).
+  { intros l Hl. apply nodupb_NoDup, cz_NoDup_zsort. exact Hl. }
+  repeat (apply andb_true_iff; split).
+  - reflexivity.
+  - apply Bool.eqb_true_iff. destruct (conflicts c) eqn:Ec.
+    + destruct (conflicting c) eqn:E; [|reflexivity]. apply conflicting_conflicts in E. rewrite Ec in E. contradiction.
+    + apply conflicting_conflicts. rewrite Ec. discriminate.
+  - apply forallb_forall. intros x Hx. apply cz_zmem_In. exact Hx.
+  - apply forallb_forall. intros x Hx. apply cz_zmem_In. exact Hx.
+  - apply nodupb_NoDup. exact Hnd.
+  - apply pnodupb_NoDup, NoDup_psort. rewrite Estops. apply NoDup_pairs; [exact Hnd|].
+    intros v Hv. apply NoDup_stop_set. apply (hyp_run c H v (conflicts_sub c v Hv)).
+  - destruct s; try reflexivity. apply Hstarts. exact Hnd.
+  - destruct s; try reflexivity. apply nodupb_NoDup. exact Hnd.
+  - apply forallb_forall. intros [p i] Hi. rewrite psort_In in Hi. destruct (Tin p i Hi) as [v [Hv [Ep [Hr _]]]].
+    apply existsb_exists. exists v. split; [exact Hv|]. simpl. rewrite Ep, Z.eqb_refl. simpl.
+    apply cz_zmem_In. apply (f_listed c F v i (conflicts_sub c v Hv)). exact Hr.
+  - apply forallb_forall. intros v Hv. pose proof (Tper v Hv) as Tv.
+    pose proof (f_listed c F v) as Hl. specialize (fun i => Hl i (conflicts_sub c v Hv)).
+    assert (Hsp : forall i, In i (stops_of (psort (pl_stops pl)) (pv_id v)) <-> In (pv_id v, i) (pl_stops pl)).
+    { intros i. rewrite In_stops_of, psort_In. reflexivity. }
+    destruct s; cbv beta zeta.
+    + destruct Tv as [k [Hk [Hext Hset]]].
+      apply (keeps_extremal_ok false Z.leb v _ k extremal_leb Hl Hk Hext). intros i. rewrite Hsp. apply Hset.
+    + destruct Tv as [k [Hk [Hext Hset]]].
+      apply (keeps_extremal_ok true Z.geb v _ k extremal_geb Hl Hk Hext). intros i. rewrite Hsp. apply Hset.
+    + destruct (stops_of (psort (pl_stops pl)) (pv_id v)) as [|x r] eqn:Es; [reflexivity|]. exfalso.
+      apply (Tv x). apply Hsp. rewrite ?Es. left. reflexivity.
+    + apply zset_eqb_iff. intros i. rewrite Hsp, Tv. apply Hl.
+    + apply zset_eqb_iff. intros i. rewrite Hsp, (Tv (Hrun v Hv)). apply Hl.
+    + apply zset_eqb_iff. intros i. rewrite Hsp, Tv. apply Hl.
+  - destruct s; try reflexivity. apply forallb_forall. intros x Hx. apply cz_zmem_In. rewrite cz_zsort_In in Hx. exact Hx.
+  - destruct s; try reflexivity. apply forallb_forall. intros x Hx. apply cz_zmem_In. rewrite cz_zsort_In. exact Hx.
+  - destruct s; try reflexivity. apply forallb_forall. intros x Hx. apply cz_zmem_In. exact Hx.
+  - destruct s; try reflexivity. apply forallb_forall. intros x Hx. apply cz_zmem_In. exact Hx.
+  - destruct s; try reflexivity. apply orb_true_iff. left. rewrite Ecalls, existsb_app. apply orb_true_iff.
+    right. reflexivity.
+Qed.
+
+(* ====================================================================== *)
+(* 10. the acknowledgements, on the C11 model of ProcessStatus              *)
+(* ====================================================================== *)
+(* a STOPPED event from instance i removes i from running_identifiers, and nothing else *)
+Lemma stopped_event_discards : forall p i e nm now ext p',
+  ProcStatus.update_info p i ProcStatus.STOPPED e nm now ext = Ok p' ->
+  ProcStatus.p_running p' = zdiscard i (ProcStatus.p_running p).
+Proof.
+  intros p i e nm now ext p' H. unfold ProcStatus.update_info in H.
+  destruct (aget i (ProcStatus.p_infos p)) as [old|]; [|discriminate].
+  rewrite ProcStatusProofs.reset_set_eq in H. apply ProcStatusProofs.update_status_frame in H.
+  destruct H as [_ [H _]]. rewrite H. simpl. unfold ProcStatusProofs.new_run.
+  rewrite (ProcStatusProofs.is_stopped_spec ProcStatus.STOPPED). reflexivity.
+Qed.
+
+Fixpoint stop_events (p : ProcStatus.proc) (stops : list Z) (now : Z) : result ProcStatus.proc :=
+  match stops with
+  | [] => Ok p
+  | i :: r => bind (ProcStatus.update_info p i ProcStatus.STOPPED true 0 now true) (fun p' => stop_events p' r now)
+  end.
+
+(* `ack` is what the real status synthesis does with the STOPPED events of the requested stops *)
+Lemma stop_events_ack : forall stops p now p', stop_events p stops now = Ok p' ->
+  ProcStatus.p_running p' = ack (ProcStatus.p_running p) stops.
+Proof.
+  intros stops. induction stops as [|i r IH]; intros p now p' H; simpl in H.
+  - inversion H; subst. reflexivity.
+  - destruct (ProcStatus.update_info p i ProcStatus.STOPPED true 0 now true) as [p1|k] eqn:E; [|discriminate].
+    simpl in H. rewrite (IH p1 now p' H). rewrite (stopped_event_discards _ _ _ _ _ _ _ E). reflexivity.
+Qed.
+
+(* ====================================================================== *)
+(* 11. a copy that is STOPPING is still listed: the code's conflict is not the property's *)
+(* ====================================================================== *)
+(* process 10 of a managed application: RUNNING on instance 1 for 100 s, the copy on instance 2 (10 s) is being
+   stopped outside Supvisors and is still in running_identifiers *)
+Definition stopping_witness : cctx :=
+  [mkAv true [mkPv 10 [1; 2] [(1, (gen_code_RUNNING, 100)); (2, (gen_code_STOPPING, 10))] true]].
+
+Lemma stopping_copy_refuted :
+  wf_ctx stopping_witness = true /\ has_stopping_listed stopping_witness = true
+  /\ spec_conflicts stopping_witness = []                       (* the property sees no conflict ... *)
+  /\ conflicting stopping_witness = true                         (* ... the code does *)
+  /\ (let '(_, _, _, stops, _, _, _) := run_case stopping_witness Senicide (map pv_id (conflicts stopping_witness))
+      in stops = [(10, 1)])                                      (* SENICIDE stops the only RUNNING copy *)
+  /\ spec_accepts stopping_witness Senicide
+       (run_case stopping_witness Senicide (map pv_id (conflicts stopping_witness))) = false.
+Proof. vm_compute. repeat split; reflexivity. Qed.
+
+Lemma model_refines_spec_needs_H :
+  exists c s, wf_ctx c = true /\ spec_accepts c s (run_case c s (map pv_id (conflicts c))) = false.
+Proof. exists stopping_witness, Senicide. vm_compute. split; reflexivity. Qed.
+
+(* H_c05 excludes that class *)
+Lemma H_c05_no_stopping : forall c, H_c05 c = true -> has_stopping_listed c = false.
+Proof.
+  intros c HH. pose proof (H_c05_facts c HH) as F. destruct (has_stopping_listed c) eqn:E; [|reflexivity].
+  exfalso. unfold has_stopping_listed in E. apply existsb_exists in E. destruct E as [v [Hv E]].
+  apply existsb_exists in E. destruct E as [i [Hi E]].
+  pose proof Hi as Hc. apply (f_listed c F v i Hv) in Hc. unfold copies in Hc. apply in_map_iff in Hc.
+  destruct Hc as [[k su] [Ek Hk]]. simpl in Ek. subst k. apply filter_In in Hk. destruct Hk as [Hk Hr]. simpl in Hr.
+  assert (Hnd : NoDup (akeys (pv_info v))).
+  { unfold H_c05 in HH. rewrite !andb_true_iff in HH. destruct HH as [_ HH]. rewrite forallb_forall in HH.
+    specialize (HH v Hv). rewrite !andb_true_iff in HH. destruct HH as [[HH _] _]. apply nodupb_NoDup. exact HH. }
+  assert (Ea : aget i (pv_info v) = Some su).
+  { clear - Hk Hnd. unfold akeys in Hnd. induction (pv_info v) as [|[k w] r IH]; [destruct Hk|]. simpl in *.
+    inversion Hnd as [|? ? Hx Hr]; subst. destruct Hk as [Hk|Hk].
+    - inversion Hk; subst. rewrite Z.eqb_refl. reflexivity.
+    - destruct (Z.eqb i k) eqn:E; [|apply IH; assumption]. apply Z.eqb_eq in E. subst k. exfalso. apply Hx.
+      apply in_map_iff. exists (i, su). auto. }
+  rewrite Ea, Hr in E. discriminate.
+Qed.
+
+(* ====================================================================== *)
+(* 12. the hypotheses are satisfiable                                        *)
+(* ====================================================================== *)
+(* application 1 (managed): process 10 on instances 3 (uptime 50), 1 (uptime 7), 2 (uptime 7: a tie);
+   process 11 on instance 4 only. application 2 (unmanaged): process 20 duplicated on 1 and 2. *)
+Definition demo_ctx : cctx :=
+  [mkAv true [mkPv 10 [3; 1; 2] [(1, (gen_code_RUNNING, 7)); (2, (gen_code_RUNNING, 7)); (3, (gen_code_RUNNING, 50));
+                                 (5, (gen_code_STOPPED, 0))] true;
+              mkPv 11 [4] [(4, (gen_code_RUNNING, 30))] true];
+   mkAv false [mkPv 20 [1; 2] [(1, (gen_code_RUNNING, 5)); (2, (gen_code_STARTING, 0))] true]].
+
+Example demo_H : H_c05 demo_ctx = true.
+Proof. vm_compute. reflexivity. Qed.
+
+Example demo_conflicts : map pv_id (conflicts demo_ctx) = [10] /\ conflicting demo_ctx = true.
+Proof. vm_compute. split; reflexivity. Qed.
+
+(* SENICIDE keeps the FIRST copy of minimal uptime in the iteration order of the set (instance 1) *)
+Example demo_senicide :
+  run_case demo_ctx Senicide [10] =
+  (true, [10], [CStop 10 (Some [2; 3]); CStopperNext], [(10, 2); (10, 3)], [], [], None).
+Proof. vm_compute. reflexivity. Qed.
+
+Example demo_infanticide :
+  run_case demo_ctx Infanticide [10] =
+  (true, [10], [CStop 10 (Some [1; 2]); CStopperNext], [(10, 1); (10, 2)], [], [], None).
+Proof. vm_compute. reflexivity. Qed.
+
+Example demo_restart :
+  run_case demo_ctx Restart [10] =
+  (true, [10], [CRestart 10; CStopperNext], [(10, 1); (10, 2); (10, 3)], [10], [], None).
+Proof. vm_compute. reflexivity. Qed.
+
+Example demo_cleared :
+  conflicting (apply_acks [(10, 2); (10, 3)] demo_ctx) = false.
+Proof. vm_compute. reflexivity. Qed.
+
+(* robustness note (hostile stream): handed a process with ONE running copy, SENICIDE stops that copy
+   (an empty identifier set means "everywhere" to Stopper.stop_process); with none it raises ValueError.
+   ConciliationState only passes context.conflicts(), where this cannot happen (conflicts_fit). *)
+Example demo_single_copy :
+  run_case demo_ctx Senicide [11] = (true, [10], [CStop 11 (Some []); CStopperNext], [(11, 4)], [], [], None).
+Proof. vm_compute. reflexivity. Qed.
